@@ -1024,6 +1024,15 @@ class _Tree(_ArithmeticMixin, _Base):
         else:
             min = self._to_key(min)
             bucket = self._findbucket(min)
+            if (
+                bucket is not None and
+                bucket._next is not None and
+                compare(bucket._keys[-1], min) < 0
+            ):
+                # min falls into the gap after this bucket's last key:
+                # the answer is the next bucket's first key.
+                bucket = bucket._next
+                min = _marker
         if bucket is not None:
             return bucket.minKey(min)
         raise ValueError('empty tree')
